@@ -7,7 +7,7 @@ From QV Require Import Model.C05.
 
 Section Proofs.
 Variable A : Alg.
-Variable T : Type.
+Variable T : TimeS A.
 
 Add Ring CRing : (Cring A).
 
@@ -135,6 +135,127 @@ Proof. unfold V. rewrite map_app. apply esum_app. Qed.
 Lemma V_cons e a t : V (e :: a) t = value A T e t +m V a t.
 Proof. reflexivity. Qed.
 
+(* ------------------------------------------------------------ sampled coefficients *)
+Notation interT := (@inter A T).
+Notation coefT := (@coef A T).
+
+Lemma nth_c_map2 (r1 r2 : list (C A)) k : length r1 = length r2 ->
+  nth_c A (map2 (cadd A) r1 r2) k = cadd A (nth_c A r1 k) (nth_c A r2 k).
+Proof.
+  unfold nth_c. revert r2 k.
+  induction r1 as [|x r1 IH]; intros [|y r2] k H; simpl in H; try discriminate.
+  - destruct k; simpl; ring.
+  - destruct k; simpl; [reflexivity|]. apply IH. congruence.
+Qed.
+
+Lemma all2_eq (g1 g2 : list T) :
+  Forall (tsep A T) g1 -> Forall (tsep A T) g2 -> all2 A T (tclose A T) g1 g2 = true -> g1 = g2.
+Proof.
+  revert g2. induction g1 as [|x g1 IH]; intros [|y g2] H1 H2 H; simpl in H; try discriminate.
+  - reflexivity.
+  - apply andb_true_iff in H. destruct H as [Hxy Hr].
+    inversion H1; inversion H2; subst.
+    f_equal; [apply (tclose_sep A T); assumption|apply IH; assumption].
+Qed.
+
+(* rows of two rectangular polys over grids of equal length *)
+Definition rect (n : nat) (p : list (list (C A))) : Prop := Forall (fun row => length row = n) p.
+
+Lemma last_map2 n (p1 p2 : list (list (C A))) : rect n p1 -> rect n p2 -> length p1 = length p2 ->
+  forall k, nth_c A (last (map2 (map2 (cadd A)) p1 p2) []) k
+            = cadd A (nth_c A (last p1 []) k) (nth_c A (last p2 []) k).
+Proof.
+  revert p2. induction p1 as [|r1 p1 IH]; intros [|r2 p2] R1 R2 HL k; simpl in HL; try discriminate.
+  - unfold nth_c. destruct k; simpl; ring.
+  - inversion R1 as [|? ? E1 R1']; inversion R2 as [|? ? E2 R2']; subst.
+    destruct p1 as [|r1' p1], p2 as [|r2' p2]; simpl in HL; try discriminate.
+    + simpl. apply nth_c_map2. congruence.
+    + change (last (map2 (map2 (cadd A)) (r1 :: r1' :: p1) (r2 :: r2' :: p2)) [])
+        with (last (map2 (map2 (cadd A)) (r1' :: p1) (r2' :: p2)) []).
+      change (last (r1 :: r1' :: p1) []) with (last (r1' :: p1) []).
+      change (last (r2 :: r2' :: p2) []) with (last (r2' :: p2) []).
+      apply IH; auto.
+Qed.
+
+Lemma horner_map2 n (p1 p2 : list (list (C A))) f k :
+  rect n p1 -> rect n p2 -> length p1 = length p2 ->
+  forall o1 o2,
+  fold_left (fun out row => cadd A (cmul A out f) (nth_c A row k))
+            (map2 (map2 (cadd A)) p1 p2) (cadd A o1 o2)
+  = cadd A (fold_left (fun out row => cadd A (cmul A out f) (nth_c A row k)) p1 o1)
+           (fold_left (fun out row => cadd A (cmul A out f) (nth_c A row k)) p2 o2).
+Proof.
+  revert p2. induction p1 as [|r1 p1 IH]; intros [|r2 p2] R1 R2 HL o1 o2; simpl in HL;
+    try discriminate.
+  - reflexivity.
+  - inversion R1 as [|? ? E1 R1']; inversion R2 as [|? ? E2 R2']; subst. simpl.
+    rewrite nth_c_map2 by congruence.
+    rewrite <- IH by (auto; congruence). f_equal. ring.
+Qed.
+
+Lemma rows_eval_fold (rows : list (list (C A))) f k :
+  rows_eval A rows f k
+  = fold_left (fun out row => cadd A (cmul A out f) (nth_c A row k)) rows (c0 A).
+Proof.
+  unfold rows_eval. destruct rows as [|r [|r' p]]; try reflexivity. simpl. ring.
+Qed.
+
+(* a fused coefficient on a common grid is the pointwise sum *)
+Lemma ieval_fuse (l r : interT) t :
+  inter_ok A T l -> inter_ok A T r -> igrid l = igrid r -> length (ipoly l) = length (ipoly r) ->
+  ieval A T (fuse A T l r) t = cadd A (ieval A T l t) (ieval A T r t).
+Proof.
+  intros [Rl _] [Rr _] Hg HL. unfold ieval, fuse. simpl. rewrite <- Hg in *.
+  destruct (igrid l) as [|t0 g] eqn:Eg; [ring|].
+  fold (rect (length (t0 :: g)) (ipoly l)) in Rl. fold (rect (length (t0 :: g)) (ipoly r)) in Rr.
+  destruct (tleb A T t t0); [apply (last_map2 _ _ _ Rl Rr HL)|].
+  destruct (tleb A T (last (t0 :: g) t0) t); [apply (last_map2 _ _ _ Rl Rr HL)|].
+  rewrite !rows_eval_fold.
+  replace (c0 A) with (cadd A (c0 A) (c0 A)) at 1 by ring.
+  apply (horner_map2 (length (t0 :: g))); auto.
+Qed.
+
+Lemma fuse_ok (l r : interT) :
+  inter_ok A T l -> inter_ok A T r -> igrid l = igrid r -> inter_ok A T (fuse A T l r).
+Proof.
+  intros [Rl Sl] [Rr _] Hg. split; [|exact Sl]. unfold fuse. simpl. rewrite <- Hg in Rr.
+  revert Rl Rr. generalize (ipoly r). induction (ipoly l) as [|r1 p1 IH]; intros [|r2 p2] Rl Rr;
+    simpl; try constructor.
+  - inversion Rl; inversion Rr; subst.
+    clear - H1 H5. revert r2 H5 H1. generalize (length (igrid l)).
+    induction r1 as [|x r1 IHr]; intros n [|y r2] E2 E1; simpl in *; try congruence.
+    destruct n; [discriminate|]. f_equal. apply (IHr n); congruence.
+  - inversion Rl; inversion Rr; subst. apply IH; assumption.
+Qed.
+
+Lemma guard_grid (l r : interT) : inter_ok A T l -> inter_ok A T r ->
+  fuse_guard_with A T (tclose A T) l r = true ->
+  igrid l = igrid r /\ length (ipoly l) = length (ipoly r).
+Proof.
+  intros [_ Sl] [_ Sr] H. unfold fuse_guard_with in H. apply andb_true_iff in H.
+  destruct H as [Hg Ho]. split; [apply all2_eq; assumption|apply Nat.eqb_eq; exact Ho].
+Qed.
+
+(* Coefficient.__add__ is pointwise whichever branch add_inter takes *)
+Lemma coef_add_eval (a b : coefT) t : coef_ok A T a -> coef_ok A T b ->
+  ceval A T (coef_add A T a b) t = cadd A (ceval A T a t) (ceval A T b t).
+Proof.
+  intros Ha Hb. unfold coef_add, coef_add_with.
+  destruct a; try reflexivity. destruct b; try reflexivity.
+  destruct (fuse_guard_with A T (tclose A T) i i0) eqn:G; [|reflexivity].
+  simpl in Ha, Hb. destruct (guard_grid _ _ Ha Hb G) as [Hg HL].
+  simpl. apply ieval_fuse; assumption.
+Qed.
+
+Lemma coef_add_ok (a b : coefT) : coef_ok A T a -> coef_ok A T b -> coef_ok A T (coef_add A T a b).
+Proof.
+  intros Ha Hb. unfold coef_add, coef_add_with.
+  destruct a; try (simpl; auto; fail). destruct b; try (simpl; auto; fail).
+  destruct (fuse_guard_with A T (tclose A T) i i0) eqn:G; [|simpl; auto].
+  simpl in Ha, Hb. destruct (guard_grid _ _ Ha Hb G) as [Hg HL].
+  simpl. apply fuse_ok; assumption.
+Qed.
+
 (* ------------------------------------------------------------ transform stacks *)
 Lemma apply_trs_app trs f q :
   apply_trs A (trs ++ [f]) q = tr_sem A f (apply_trs A trs q).
@@ -204,14 +325,14 @@ Proof. intros H E. subst. discriminate. Qed.
 (* --- element * number *)
 Lemma wf_scale e : forall z, wf A T e -> wf A T (scale A T z e).
 Proof.
-  induction e as [q|q c|f|f trs w|l IHl r IHr trs cj]; intros z; simpl; auto.
+  induction e as [q|q c|f a|f a trs w|l IHl r IHr trs cj]; intros z; simpl; auto.
   intros (Hl & Hr & Hok & Hcj). auto.
 Qed.
 
 Lemma scale_value e : forall z t, wf A T e ->
   value A T (scale A T z e) t = z *s value A T e t.
 Proof.
-  induction e as [q|q c|f|f trs w|l IHl r IHr trs cj]; intros z t Hwf.
+  induction e as [q|q c|f a|f a trs w|l IHl r IHr trs cj]; intros z t Hwf.
   - unfold value. simpl. apply mscale_comm.
   - unfold value. simpl. apply mscale_comm.
   - unfold value. simpl. rewrite mscale_1. reflexivity.
@@ -251,7 +372,7 @@ Lemma linear_map_value f anti (e : elemT) t :
   value A T (linear_map A T f anti e) t = tr_sem A f (value A T e t).
 Proof.
   intros [Hadd Hhom] Hanti. subst anti.
-  destruct e as [q|q c|g|g trs z|l r trs cj]; unfold value; simpl.
+  destruct e as [q|q c|g a|g a trs z|l r trs cj]; unfold value; simpl.
   - rewrite !mscale_1. reflexivity.
   - rewrite Hhom. destruct (tr_anti A f); reflexivity.
   - rewrite !mscale_1. reflexivity.
@@ -263,9 +384,9 @@ Lemma wf_linear_map f anti (e : elemT) :
   tr_ok A f -> tr_anti A f = anti -> wf A T e -> wf A T (linear_map A T f anti e).
 Proof.
   intros Hf Hanti. subst anti.
-  destruct e as [q|q c|g|g trs z|l r trs cj]; simpl; intros Hw.
+  destruct e as [q|q c|g a|g a trs z|l r trs cj]; simpl; intros Hw.
   - exact I.
-  - exact I.
+  - destruct (tr_anti A f); simpl; exact Hw.
   - constructor; auto.
   - apply Forall_app. split; auto.
   - destruct Hw as (Hl & Hr & Hok & Hcj). repeat split; auto.
@@ -276,7 +397,7 @@ Qed.
 Lemma mdt_value (e : elemT) : forall t s out, wf A T e ->
   mdt A T e t s out = Some (acc_out A out (value A T e t @m s)).
 Proof.
-  induction e as [q|q c|f|f trs w|l IHl r IHr trs cj]; intros t s out Hwf;
+  induction e as [q|q c|f a|f a trs w|l IHl r IHr trs cj]; intros t s out Hwf;
     try (cbn [mdt]; rewrite value_mmul_state; reflexivity).
   destruct trs as [|x trs].
   - simpl in Hwf. destruct Hwf as (Hl & Hr & Hok & Hcj). unfold xor_anti in Hcj. simpl in Hcj.
@@ -376,6 +497,17 @@ Proof.
 Qed.
 
 (* --- compress *)
+Lemma Forall_wf_map (g : elemT -> elemT) a :
+  (forall e, wf A T e -> wf A T (g e)) -> Forall (wf A T) a -> Forall (wf A T) (map g a).
+Proof.
+  intros Hg Ha. induction Ha; simpl; constructor; auto.
+Qed.
+
+Lemma Forall_wf_filter p (a : qevoT) : Forall (wf A T) a -> Forall (wf A T) (filter p a).
+Proof.
+  intros Ha. induction Ha; simpl; auto. destruct (p x); auto.
+Qed.
+
 Lemma part2 v a b c : v +m (a +m (b +m c)) = a +m ((v +m b) +m c).
 Proof. rewrite madd_swap. f_equal. symmetry. apply madd_assoc. Qed.
 
@@ -400,34 +532,54 @@ Qed.
 Definition Vacc (acc : list (M A * coef A T)) (t : T) : M A :=
   esum A (map (fun p => ceval A T (snd p) t *s fst p) acc).
 
-Lemma merge_ins_V q c acc t :
+Definition acc_ok (acc : list (M A * coef A T)) : Prop :=
+  Forall (fun p => coef_ok A T (snd p)) acc.
+
+Lemma merge_ins_ok q c acc : coef_ok A T c -> acc_ok acc -> acc_ok (merge_ins A T q c acc).
+Proof.
+  intros Hc Ha. induction Ha as [|[q' c'] acc Hp Ha IH]; simpl.
+  - repeat constructor. exact Hc.
+  - destruct (meqb A q q'); constructor; simpl in *; auto using coef_add_ok.
+Qed.
+
+Lemma merge_ins_V q c acc t : coef_ok A T c -> acc_ok acc ->
   Vacc (merge_ins A T q c acc) t = Vacc acc t +m ceval A T c t *s q.
 Proof.
-  induction acc as [|[q' c'] acc IH]; simpl.
+  intros Hc Ha. induction Ha as [|[q' c'] acc Hp Ha IH]; simpl.
   - unfold Vacc. simpl. rewrite madd_0_l, madd_0_r. reflexivity.
   - destruct (meqb A q q') eqn:E.
-    + apply meqb_sound in E. subst q'. unfold Vacc. simpl.
+    + apply meqb_sound in E. subst q'. unfold Vacc. simpl. simpl in Hp.
+      rewrite coef_add_eval by assumption.
       rewrite mscale_add_l. rewrite !madd_assoc. f_equal. apply madd_comm.
     + unfold Vacc in *. simpl. rewrite IH. symmetry. apply madd_assoc.
 Qed.
 
-Lemma merge_fold_V (es : qevoT) : forall acc t,
-  Vacc (fold_left (fun acc e => match e with Evo q c => merge_ins A T q c acc | _ => acc end)
-                  es acc) t
-  = Vacc acc t +m V (filter (is_evo A T) es) t.
+Notation merge_step := (fun acc e => match e with Evo q c => merge_ins A T q c acc | _ => acc end).
+
+Lemma merge_fold_ok (es : qevoT) : Forall (wf A T) es -> forall acc, acc_ok acc ->
+  acc_ok (fold_left merge_step es acc).
 Proof.
-  induction es as [|e es IH]; intros acc t; simpl.
-  - unfold V. simpl. symmetry. apply madd_0_r.
-  - destruct e; simpl; rewrite IH; try reflexivity.
-    rewrite merge_ins_V, V_cons. unfold value. simpl. apply madd_assoc.
+  intros Hes. induction Hes as [|e es He Hes IH]; intros acc Ha; simpl; auto.
+  apply IH. destruct e; auto. apply merge_ins_ok; auto.
 Qed.
 
-Lemma V_merge_evo (es : qevoT) t : V (merge_evo A T es) t = V (filter (is_evo A T) es) t.
+Lemma merge_fold_V (es : qevoT) : Forall (wf A T) es -> forall acc t, acc_ok acc ->
+  Vacc (fold_left merge_step es acc) t = Vacc acc t +m V (filter (is_evo A T) es) t.
 Proof.
-  unfold merge_evo.
-  transitivity (Vacc (fold_left (fun acc e => match e with Evo q c => merge_ins A T q c acc | _ => acc end) es []) t).
+  intros Hes. induction Hes as [|e es He Hes IH]; intros acc t Ha; simpl.
+  - unfold V. simpl. symmetry. apply madd_0_r.
+  - destruct e; simpl; rewrite IH; try reflexivity; try assumption.
+    + rewrite merge_ins_V, V_cons by assumption. unfold value. simpl. apply madd_assoc.
+    + apply merge_ins_ok; assumption.
+Qed.
+
+Lemma V_merge_evo (es : qevoT) t : Forall (wf A T) es ->
+  V (merge_evo A T es) t = V (filter (is_evo A T) es) t.
+Proof.
+  intros Hes. unfold merge_evo.
+  transitivity (Vacc (fold_left merge_step es []) t).
   - unfold V, Vacc. rewrite map_map. reflexivity.
-  - rewrite merge_fold_V. unfold Vacc. simpl. apply madd_0_l.
+  - rewrite merge_fold_V by (auto; constructor). unfold Vacc. simpl. apply madd_0_l.
 Qed.
 
 Lemma V_const_sum (l : qevoT) t : forallb (is_const A T) l = true ->
@@ -453,9 +605,10 @@ Proof.
   induction l as [|x l IH]; simpl; auto. destruct (p x) eqn:E; simpl; rewrite ?E; congruence.
 Qed.
 
-Lemma V_compress (es : qevoT) t : V (compress A T es) t = V es t.
+Lemma V_compress (es : qevoT) t : Forall (wf A T) es -> V (compress A T es) t = V es t.
 Proof.
-  unfold compress. rewrite !V_app, V_merge_evo, filter_idem.
+  intros Hes. unfold compress.
+  rewrite !V_app, V_merge_evo, filter_idem by (apply Forall_wf_filter; exact Hes).
   rewrite (V_partition es t). f_equal.
   pose proof (forallb_filter_self (is_const A T) es) as Hc.
   destruct (filter (is_const A T) es) as [|a [|b l]]; try reflexivity.
@@ -491,17 +644,6 @@ Proof.
 Qed.
 
 (* ------------------------------------------------------------ trees *)
-Lemma Forall_wf_map (g : elemT -> elemT) a :
-  (forall e, wf A T e -> wf A T (g e)) -> Forall (wf A T) a -> Forall (wf A T) (map g a).
-Proof.
-  intros Hg Ha. induction Ha; simpl; constructor; auto.
-Qed.
-
-Lemma Forall_wf_filter p (a : qevoT) : Forall (wf A T) a -> Forall (wf A T) (filter p a).
-Proof.
-  intros Ha. induction Ha; simpl; auto. destruct (p x); auto.
-Qed.
-
 Lemma wf_compress (es : qevoT) : Forall (wf A T) es -> Forall (wf A T) (compress A T es).
 Proof.
   intros H. unfold compress. repeat (apply Forall_app; split).
@@ -509,8 +651,10 @@ Proof.
     + constructor.
     + rewrite <- E. apply Forall_wf_filter. exact H.
     + constructor; [exact I|constructor].
-  - unfold merge_evo. apply Forall_forall. intros e He.
-    apply in_map_iff in He. destruct He as (p & Hp & _). subst e. exact I.
+  - unfold merge_evo.
+    assert (Ha : acc_ok (fold_left merge_step (filter (is_evo A T) es) [])).
+    { apply merge_fold_ok; [apply Forall_wf_filter; exact H|constructor]. }
+    induction Ha as [|p acc Hp Ha IH]; simpl; constructor; auto.
   - apply Forall_wf_filter. exact H.
 Qed.
 
@@ -523,87 +667,280 @@ Proof.
     apply Forall_wf_map; [|exact Hb]. intros e He. apply wf_matmul; assumption.
 Qed.
 
+Lemma creplace_ok n (c : coefT) : coef_ok A T c -> coef_ok A T (creplace A T n c).
+Proof. induction c; simpl; tauto. Qed.
+
+Lemma wf_ereplace n (e : elemT) : wf A T e -> wf A T (ereplace A T n e).
+Proof.
+  induction e as [q|q c|f a|f a trs w|l IHl r IHr trs cj]; simpl; auto using creplace_ok.
+  intros (Hl & Hr & Hok & Hcj). auto.
+Qed.
+
 Section Trees.
 Variable sc : C A -> elemT -> elemT.
 Hypothesis sc_wf : forall z e, wf A T e -> wf A T (sc z e).
 
 Lemma wf_build (x : qx A T) : wfx A T x -> Forall (wf A T) (build_with A T sc x).
 Proof.
-  induction x; simpl; intros Hx;
-    try (apply wf_compress);
-    try (destruct Hx as [Hx1 Hx2]);
-    try (destruct Hx2 as [Hx2 Hx3]).
-  - repeat constructor.
-  - repeat constructor.
-  - repeat constructor.
-  - apply Forall_forall. intros e He. apply in_map_iff in He.
-    destruct He as ([q [c|]] & Hp & _); subst e; exact I.
-  - apply Forall_app. split; auto.
-  - apply Forall_app. split; auto. apply Forall_wf_map; auto.
+  induction x; simpl; intros Hx.
+  - apply wf_compress. repeat constructor.
+  - apply wf_compress. constructor; [exact Hx|constructor].
+  - apply wf_compress. repeat constructor.
+  - apply wf_compress. apply Forall_forall. intros e He. apply in_map_iff in He.
+    destruct He as ([q [c|]] & Hp & Hin); subst e; unfold read_item; simpl; [|exact I].
+    rewrite Forall_forall in Hx. apply (Hx _ Hin).
+  - destruct Hx as [H1 H2]. apply Forall_app. split; auto.
+  - destruct Hx as [H1 H2]. apply Forall_app. split; auto. apply Forall_wf_map; auto.
   - apply Forall_app. split; auto. repeat constructor.
   - apply Forall_app. split; auto. repeat constructor.
   - apply Forall_wf_map; auto.
-  - apply Forall_wf_map; auto. intros e He. apply wf_matmul; simpl; auto.
-  - apply wf_imatmul; auto.
+  - destruct Hx as [Hc Hx]. apply Forall_wf_map; auto.
+    intros e He. apply wf_matmul; simpl; auto.
+  - destruct Hx as [H1 H2]. apply wf_imatmul; auto.
   - apply Forall_wf_map; auto. intros e He. apply wf_matmul; simpl; auto.
   - apply Forall_wf_map; auto. intros e He. apply wf_matmul; simpl; auto.
   - apply Forall_wf_map; auto.
   - apply Forall_wf_map; auto. intros e He. apply wf_linear_map; auto. apply tr_ok_trans.
   - apply Forall_wf_map; auto. intros e He. apply wf_linear_map; auto. apply tr_ok_conj.
   - apply Forall_wf_map; auto. intros e He. apply wf_linear_map; auto. apply tr_ok_dag.
-  - apply Forall_wf_map; auto. intros e He. apply wf_linear_map; auto.
-  - auto.
-  - auto.
+  - destruct Hx as (H1 & H2 & H3). apply Forall_wf_map; auto.
+    intros e He. apply wf_linear_map; auto.
+  - apply wf_compress. auto.
+  - apply wf_compress. auto.
+  - apply wf_compress. apply Forall_wf_map; auto. intros e He. apply wf_ereplace. exact He.
+  - apply Forall_wf_map; auto. intros e He. apply wf_ereplace. exact He.
 Qed.
 End Trees.
 
 Lemma wf_build_cur x : wfx A T x -> Forall (wf A T) (build A T x).
 Proof. apply wf_build. intros z e. apply wf_scale. Qed.
 
-Lemma V_items items t :
-  V (map (read_item A T) items) t = esum A (map (item_value A T t) items).
-Proof.
-  unfold V. rewrite map_map. f_equal. apply map_ext. intros [q [c|]]; unfold value; simpl.
-  - reflexivity.
-  - apply mscale_1.
-Qed.
-
 Lemma V_single (e : elemT) t : V [e] t = value A T e t.
 Proof. unfold V. simpl. apply madd_0_r. Qed.
 
-Ltac wfb :=
-  match goal with
-  | |- Forall _ (build_with _ _ (scale _ _) ?x) => apply (wf_build_cur x); assumption
-  end.
+(* ------------------------------------------------------------ replace_arguments *)
+Notation ArgsT := (tArgs A T).
+Notation crep := (crep A T).
+Notation rep := (rep A T).
 
-(* the tree theorem: unconditional *)
-Lemma pointwise (x : qx A T) t : wfx A T x ->
-  V (build A T x) t = sem A T x t.
+Lemma ceval_creplace m (c : coefT) t : ceval A T (creplace A T m c) t = ceval_ov A T m c t.
+Proof. induction c; simpl; congruence. Qed.
+
+Lemma cev_crep ov (c : coefT) t : cev A T ov c t = ceval A T (crep ov c) t.
+Proof. destruct ov; simpl; [symmetry; apply ceval_creplace|reflexivity]. Qed.
+
+Lemma crep_ok ov (c : coefT) : coef_ok A T c -> coef_ok A T (crep ov c).
+Proof. destruct ov; simpl; auto using creplace_ok. Qed.
+
+Lemma wf_rep ov (es : qevoT) : Forall (wf A T) es -> Forall (wf A T) (rep ov es).
+Proof. destruct ov; simpl; auto. apply Forall_wf_map. intros e. apply wf_ereplace. Qed.
+
+Lemma creplace_creplace m n (c : coefT) :
+  creplace A T m (creplace A T n c) = creplace A T (amerge A T n m) c.
+Proof. induction c; simpl; try congruence. rewrite amerge_assoc. reflexivity. Qed.
+
+Lemma ereplace_ereplace m n (e : elemT) :
+  ereplace A T m (ereplace A T n e) = ereplace A T (amerge A T n m) e.
 Proof.
-  induction x; intros Hx; simpl in Hx; unfold build in *; simpl build_with; simpl sem;
-    rewrite ?V_compress.
-  - rewrite V_single. unfold value. simpl. apply mscale_1.
-  - rewrite V_single. reflexivity.
-  - rewrite V_single. unfold value. simpl. apply mscale_1.
-  - apply V_items.
-  - destruct Hx as [H1 H2]. unfold qe_iadd. rewrite V_app, IHx1, IHx2 by assumption. reflexivity.
-  - destruct Hx as [H1 H2]. unfold qe_iadd.
-    rewrite V_app, V_scale, IHx1, IHx2 by (first [assumption | wfb]). reflexivity.
-  - rewrite V_iadd_qobj, IHx by assumption. reflexivity.
-  - rewrite V_iadd_num, IHx by assumption. reflexivity.
-  - rewrite V_scale, IHx by (first [assumption | wfb]). reflexivity.
-  - rewrite V_imul_coef, IHx by assumption. reflexivity.
-  - destruct Hx as [H1 H2]. rewrite V_imatmul, IHx1, IHx2 by assumption. reflexivity.
-  - rewrite V_imatmul_qobj, IHx by assumption. reflexivity.
-  - rewrite V_rmatmul_qobj, IHx by assumption. reflexivity.
-  - rewrite V_scale, IHx by (first [assumption | wfb]). reflexivity.
-  - unfold qe_trans. rewrite V_linear_map, IHx by (auto using tr_ok_trans). reflexivity.
-  - unfold qe_conj. rewrite V_linear_map, IHx by (auto using tr_ok_conj). reflexivity.
-  - unfold qe_dag. rewrite V_linear_map, IHx by (auto using tr_ok_dag). reflexivity.
-  - destruct Hx as (H1 & H2 & H3). rewrite V_linear_map, IHx by assumption. reflexivity.
-  - auto.
-  - auto.
+  induction e as [q|q c|f a|f a trs w|l IHl r IHr trs cj]; simpl;
+    rewrite ?amerge_assoc, ?creplace_creplace; congruence.
 Qed.
+
+Lemma ereplace_scale m (e : elemT) : forall z,
+  ereplace A T m (scale A T z e) = scale A T z (ereplace A T m e).
+Proof.
+  induction e as [q|q c|f a|f a trs w|l IHl r IHr trs cj]; intros z; simpl; try reflexivity.
+  rewrite IHr. reflexivity.
+Qed.
+
+Lemma ereplace_matmul m (a b : elemT) :
+  ereplace A T m (matmul A T a b) = matmul A T (ereplace A T m a) (ereplace A T m b).
+Proof. destruct a, b; reflexivity. Qed.
+
+Lemma ereplace_linear_map m f anti (e : elemT) :
+  ereplace A T m (linear_map A T f anti e) = linear_map A T f anti (ereplace A T m e).
+Proof. destruct e; simpl; try reflexivity. destruct anti; reflexivity. Qed.
+
+Lemma creplace_coef_add m (a b : coefT) :
+  creplace A T m (coef_add A T a b) = coef_add A T (creplace A T m a) (creplace A T m b).
+Proof.
+  unfold coef_add, coef_add_with. destruct a; try reflexivity. destruct b; try reflexivity.
+  simpl. destruct (fuse_guard_with A T (tclose A T) i i0); reflexivity.
+Qed.
+
+Lemma filter_map_inv {X} (p : X -> bool) (g : X -> X) l :
+  (forall x, p (g x) = p x) -> filter p (map g l) = map g (filter p l).
+Proof.
+  intros H. induction l as [|x l IH]; simpl; auto. rewrite H. destruct (p x); simpl; congruence.
+Qed.
+
+Definition prep m (p : M A * coefT) : M A * coefT := (fst p, creplace A T m (snd p)).
+
+Lemma merge_ins_rep m q c acc :
+  merge_ins A T q (creplace A T m c) (map (prep m) acc) = map (prep m) (merge_ins A T q c acc).
+Proof.
+  induction acc as [|[q' c'] acc IH]; simpl; [reflexivity|].
+  destruct (meqb A q q'); simpl.
+  - unfold prep at 2. simpl. rewrite creplace_coef_add. reflexivity.
+  - rewrite IH. reflexivity.
+Qed.
+
+Lemma merge_fold_rep m (es : qevoT) : forall acc,
+  fold_left merge_step (map (ereplace A T m) es) (map (prep m) acc)
+  = map (prep m) (fold_left merge_step es acc).
+Proof.
+  induction es as [|e es IH]; intros acc; simpl; [reflexivity|].
+  destruct e; simpl; try apply IH. rewrite merge_ins_rep. apply IH.
+Qed.
+
+Lemma merge_evo_rep m (es : qevoT) :
+  merge_evo A T (map (ereplace A T m) es) = map (ereplace A T m) (merge_evo A T es).
+Proof.
+  unfold merge_evo. change (@nil (M A * coefT)) with (map (prep m) []) at 1.
+  rewrite merge_fold_rep, !map_map. apply map_ext. intros [q c]. reflexivity.
+Qed.
+
+Lemma map_er_const m (l : qevoT) : forallb (is_const A T) l = true -> map (ereplace A T m) l = l.
+Proof.
+  induction l as [|e l IH]; simpl; auto. intros H. apply andb_true_iff in H. destruct H as [He Hl].
+  rewrite IH by exact Hl. destruct e; try discriminate. reflexivity.
+Qed.
+
+Lemma compress_rep m (es : qevoT) :
+  map (ereplace A T m) (compress A T es) = compress A T (map (ereplace A T m) es).
+Proof.
+  unfold compress. rewrite !map_app.
+  rewrite !(filter_map_inv _ (ereplace A T m)) by (intros x; destruct x; reflexivity).
+  rewrite merge_evo_rep.
+  pose proof (forallb_filter_self (is_const A T) es) as Hc.
+  rewrite (map_er_const m (filter (is_const A T) es) Hc).
+  f_equal. destruct (filter (is_const A T) es) as [|a [|b l]]; try reflexivity.
+  apply (map_er_const m [a] Hc).
+Qed.
+
+Lemma rep_compress ov (es : qevoT) : rep ov (compress A T es) = compress A T (rep ov es).
+Proof. destruct ov; [apply compress_rep|reflexivity]. Qed.
+
+Lemma rep_app ov (a b : qevoT) : rep ov (a ++ b) = rep ov a ++ rep ov b.
+Proof. destruct ov; [apply map_app|reflexivity]. Qed.
+
+Lemma rep_map_scale ov z (es : qevoT) :
+  rep ov (map (scale A T z) es) = map (scale A T z) (rep ov es).
+Proof.
+  destruct ov; [|reflexivity]. unfold rep. rewrite !map_map. apply map_ext. intros e.
+  apply ereplace_scale.
+Qed.
+
+Lemma rep_imul_coef ov (es : qevoT) c :
+  rep ov (qe_imul_coef A T es c) = qe_imul_coef A T (rep ov es) (crep ov c).
+Proof.
+  destruct ov; [|reflexivity]. unfold qe_imul_coef, rep, crep. rewrite !map_map. apply map_ext.
+  intros e. rewrite ereplace_matmul. reflexivity.
+Qed.
+
+Lemma rep_imatmul_qobj ov (es : qevoT) q :
+  rep ov (qe_imatmul_qobj A T es q) = qe_imatmul_qobj A T (rep ov es) q.
+Proof.
+  destruct ov; [|reflexivity]. unfold qe_imatmul_qobj, rep. rewrite !map_map. apply map_ext.
+  intros e. rewrite ereplace_matmul. reflexivity.
+Qed.
+
+Lemma rep_rmatmul_qobj ov q (es : qevoT) :
+  rep ov (qe_rmatmul_qobj A T q es) = qe_rmatmul_qobj A T q (rep ov es).
+Proof.
+  destruct ov; [|reflexivity]. unfold qe_rmatmul_qobj, rep. rewrite !map_map. apply map_ext.
+  intros e. rewrite ereplace_matmul. reflexivity.
+Qed.
+
+Lemma rep_imatmul ov (a b : qevoT) :
+  rep ov (qe_imatmul A T a b) = qe_imatmul A T (rep ov a) (rep ov b).
+Proof.
+  destruct ov; [|reflexivity]. unfold qe_imatmul, rep.
+  induction a as [|l a IH]; cbn [flat_map map]; [reflexivity|].
+  rewrite map_app, IH. f_equal. rewrite !map_map. apply map_ext. intros r.
+  apply ereplace_matmul.
+Qed.
+
+Lemma rep_linear_map ov f anti (es : qevoT) :
+  rep ov (qe_linear_map A T f anti es) = qe_linear_map A T f anti (rep ov es).
+Proof.
+  destruct ov; [|reflexivity]. unfold qe_linear_map, rep. rewrite !map_map. apply map_ext.
+  intros e. apply ereplace_linear_map.
+Qed.
+
+Lemma rep_rep ov n (es : qevoT) :
+  rep ov (map (ereplace A T n) es)
+  = rep (Some (match ov with None => n | Some m => amerge A T n m end)) es.
+Proof.
+  destruct ov; [|reflexivity]. unfold rep. rewrite map_map. apply map_ext. intros e.
+  apply ereplace_ereplace.
+Qed.
+
+Lemma V_items ov items t :
+  V (rep ov (map (read_item A T) items)) t = esum A (map (item_value A T ov t) items).
+Proof.
+  assert (E : rep ov (map (read_item A T) items)
+              = map (fun p => match snd p with None => Const (fst p)
+                                          | Some c => Evo (fst p) (crep ov c) end) items).
+  { destruct ov; simpl; rewrite ?map_map; apply map_ext; intros [q [c|]]; reflexivity. }
+  rewrite E. unfold V. rewrite map_map. f_equal. apply map_ext.
+  intros [q [c|]]; unfold value, item_value; simpl.
+  - rewrite cev_crep. reflexivity.
+  - apply mscale_1.
+Qed.
+
+Ltac wfr :=
+  repeat first [ assumption
+               | apply wf_rep
+               | apply wf_build_cur
+               | apply Forall_wf_map; [intros ? ?; apply wf_ereplace; assumption|] ].
+
+(* the tree theorem, under any overriding argument dictionary *)
+Lemma pointwise_ov (x : qx A T) : forall ov t, wfx A T x ->
+  V (rep ov (build A T x)) t = semo A T ov x t.
+Proof.
+  induction x; intros ov t Hx; simpl in Hx; unfold build in *; simpl build_with; simpl semo.
+  - rewrite rep_compress, V_compress by (apply wf_rep; repeat constructor).
+    destruct ov; simpl; rewrite V_single; unfold value; simpl; apply mscale_1.
+  - rewrite rep_compress, V_compress by (apply wf_rep; constructor; [exact Hx|constructor]).
+    rewrite cev_crep. destruct ov; simpl; rewrite V_single; reflexivity.
+  - rewrite rep_compress, V_compress by (apply wf_rep; repeat constructor).
+    destruct ov; simpl; rewrite V_single; unfold value; simpl; apply mscale_1.
+  - rewrite rep_compress, V_compress; [apply V_items|].
+    apply wf_rep. apply Forall_forall. intros e He. apply in_map_iff in He.
+    destruct He as ([q [c|]] & Hp & Hin); subst e; unfold read_item; simpl; [|exact I].
+    rewrite Forall_forall in Hx. apply (Hx _ Hin).
+  - destruct Hx as [H1 H2]. unfold qe_iadd.
+    rewrite rep_app, V_app, IHx1, IHx2 by assumption. reflexivity.
+  - destruct Hx as [H1 H2]. unfold qe_iadd.
+    rewrite rep_app, rep_map_scale, V_app, V_scale, IHx1, IHx2 by wfr. reflexivity.
+  - unfold qe_iadd_qobj. rewrite rep_app, V_app, IHx by assumption. f_equal.
+    destruct ov; simpl; rewrite V_single; unfold value; simpl; apply mscale_1.
+  - unfold qe_iadd_num. rewrite rep_app, V_app, IHx by assumption. f_equal.
+    destruct ov; simpl; rewrite V_single; unfold value; simpl; apply mscale_1.
+  - rewrite rep_map_scale, V_scale, IHx by wfr. reflexivity.
+  - destruct Hx as [Hc Hx]. rewrite rep_imul_coef, V_imul_coef, IHx, cev_crep by assumption.
+    reflexivity.
+  - destruct Hx as [H1 H2]. rewrite rep_imatmul, V_imatmul, IHx1, IHx2 by assumption. reflexivity.
+  - rewrite rep_imatmul_qobj, V_imatmul_qobj, IHx by assumption. reflexivity.
+  - rewrite rep_rmatmul_qobj, V_rmatmul_qobj, IHx by assumption. reflexivity.
+  - rewrite rep_map_scale, V_scale, IHx by wfr. reflexivity.
+  - unfold qe_trans. rewrite rep_linear_map, V_linear_map, IHx by (auto using tr_ok_trans).
+    reflexivity.
+  - unfold qe_conj. rewrite rep_linear_map, V_linear_map, IHx by (auto using tr_ok_conj).
+    reflexivity.
+  - unfold qe_dag. rewrite rep_linear_map, V_linear_map, IHx by (auto using tr_ok_dag).
+    reflexivity.
+  - destruct Hx as (H1 & H2 & H3). rewrite rep_linear_map, V_linear_map, IHx by assumption.
+    reflexivity.
+  - rewrite rep_compress, V_compress by wfr. auto.
+  - rewrite rep_compress, V_compress by wfr. auto.
+  - rewrite rep_compress, V_compress by wfr. rewrite rep_rep. apply IHx. exact Hx.
+  - rewrite rep_rep. apply IHx. exact Hx.
+Qed.
+
+Lemma pointwise (x : qx A T) t : wfx A T x -> V (build A T x) t = sem A T x t.
+Proof. intros Hx. apply (pointwise_ov x None t Hx). Qed.
 
 (* every product term any tree builds keeps  conj flag = xor of the anti flags,
    so a set flag implies a non-empty stack (matmul_data_t's shortcut is legal) *)
@@ -675,25 +1012,58 @@ Proof.
 Defined.
 
 (* ====================================================================== *)
-(* Witnesses on the instance (T = Z). *)
+(* Integer times for the execution instance: rtol = 1e-15 exactly, times are
+   separated when |t| < 1e15, args dictionaries have the single key "w". *)
+Lemma zclose_new_sep a b : zsep a -> zsep b -> zclose_new a b = true -> a = b.
+Proof.
+  unfold zsep, zclose_new, ten15. intros Ha Hb H. apply Z.leb_le in H. lia.
+Qed.
+
+Lemma zmerge_assoc (a m n : option Z) : zmerge (zmerge a m) n = zmerge a (zmerge m n).
+Proof. destruct n, m; reflexivity. Qed.
+
+Definition ZT : TimeS G2 :=
+  @Build_TimeS G2 Z Z.leb zclose_new zdiff zsep zclose_new_sep (option Z) zmerge zmerge_assoc.
+
+(* the repaired guard does not depend on the unit of time *)
+Lemma zclose_new_scale_free k a b : (0 < k)%Z -> zclose_new (k * a) (k * b) = zclose_new a b.
+Proof.
+  intros Hk. unfold zclose_new.
+  rewrite <- Z.mul_sub_distr_l, !Z.abs_mul, (Z.abs_eq k) by lia.
+  rewrite <- Z.mul_assoc.
+  destruct (Z.leb_spec (Z.abs (a - b) * ten15) (Z.abs b)) as [H|H].
+  - apply Z.leb_le. apply Z.mul_le_mono_nonneg_l; lia.
+  - apply Z.leb_gt. apply Z.mul_lt_mono_pos_l; lia.
+Qed.
+
+(* ====================================================================== *)
+(* Witnesses on the instance. *)
 Definition gi (a b : Z) : GI := (a, b).
 Definition wB : M2 := mk2 (gi 1 0) (gi 0 2) (gi 3 0) (gi 4 0).       (* [[1, 2i], [3, 4]] *)
-Definition wf_fun (t : Z) : M2 := mk2 (gi t 0) (gi 1 0) (gi 0 t) (gi 2 0).  (* [[t, 1], [i t, 2]] *)
-Definition wg_fun (t : Z) : M2 := mk2 (gi 1 0) (gi t 0) (gi 0 0) (gi (2 + t) 0).
+(* f(t, w) = w * [[t, 1], [i t, 2]], default w = 1 *)
+Definition wdef (a : option Z) : Z := match a with Some w => w | None => 1%Z end.
+Definition wf_fun (a : option Z) (t : Z) : M2 :=
+  scale2 (gi (wdef a) 0) (mk2 (gi t 0) (gi 1 0) (gi 0 t) (gi 2 0)).
+Definition wg_fun (a : option Z) (t : Z) : M2 :=
+  scale2 (gi (wdef a) 0) (mk2 (gi 1 0) (gi t 0) (gi 0 0) (gi (2 + t) 0)).
 Definition wi : GI := gi 0 1.
 Definition wS : M2 := mk2 (gi 1 0) (gi 0 0) (gi 2 0) (gi 0 1).
 
 (* the term of (QobjEvo(f) @ B).dag() *)
-Definition w_elem : @elem G2 Z :=
-  linear_map G2 Z (@TDag G2) true (matmul G2 Z (@Func G2 Z wf_fun) (@Const G2 Z wB)).
+Definition w_elem : @elem G2 ZT :=
+  linear_map G2 ZT (@TDag G2) true (matmul G2 ZT (@Func G2 ZT wf_fun None) (@Const G2 ZT wB)).
 (* (QobjEvo(f) @ B).dag() * 1j *)
-Definition w_tree : qx G2 Z :=
-  @XMulNum G2 Z (XDag (@XMatmulQ G2 Z (@XFunc G2 Z wf_fun) wB)) wi.
+Definition w_tree : qx G2 ZT :=
+  @XMulNum G2 ZT (XDag (@XMatmulQ G2 ZT (@XFunc G2 ZT wf_fun None) wB)) wi.
 (* QobjEvo(g) @ (QobjEvo(f) @ B).dag() *)
-Definition w_tree2 : qx G2 Z :=
-  XMatmul (@XFunc G2 Z wg_fun) (XDag (@XMatmulQ G2 Z (@XFunc G2 Z wf_fun) wB)).
+Definition w_tree2 : qx G2 ZT :=
+  XMatmul (@XFunc G2 ZT wg_fun None) (XDag (@XMatmulQ G2 ZT (@XFunc G2 ZT wf_fun None) wB)).
+(* (QobjEvo(g, args={w: 2}) @ QobjEvo(f)).dag() re-evaluated with w = 3, then w = 5 *)
+Definition w_tree3 : qx G2 ZT :=
+  @XArgs G2 ZT (@XArgs G2 ZT (XDag (XMatmul (@XFunc G2 ZT wg_fun (Some 2%Z))
+                                              (@XFunc G2 ZT wf_fun None))) (Some 3%Z)) (Some 5%Z).
 
-Lemma w_elem_wf : wf G2 Z w_elem.
+Lemma w_elem_wf : wf G2 ZT w_elem.
 Proof.
   unfold w_elem. apply wf_linear_map; [apply tr_ok_dag|reflexivity|].
   apply wf_matmul; exact I.
@@ -702,22 +1072,61 @@ Qed.
 (* the former rules on the former witnesses (documentation of the defects
    repaired by commits 7dc9384 and c657c42) *)
 Lemma w_elem_old_rule :
-  value G2 Z (old_scale G2 Z wi w_elem) 2%Z <> mscale G2 wi (value G2 Z w_elem 2%Z) /\
-  value G2 Z (scale G2 Z wi w_elem) 2%Z = mscale G2 wi (value G2 Z w_elem 2%Z).
+  value G2 ZT (old_scale G2 ZT wi w_elem) 2%Z <> mscale G2 wi (value G2 ZT w_elem 2%Z) /\
+  value G2 ZT (scale G2 ZT wi w_elem) 2%Z = mscale G2 wi (value G2 ZT w_elem 2%Z).
 Proof. split; [vm_compute; discriminate|vm_compute; reflexivity]. Qed.
 
-Lemma w_tree_wfx : wfx G2 Z w_tree.
+Lemma w_tree_wfx : wfx G2 ZT w_tree.
 Proof. exact I. Qed.
 
 Lemma w_tree_old_rule :
-  qe_call G2 Z (old_build G2 Z w_tree) 2%Z <> sem G2 Z w_tree 2%Z /\
-  qe_call G2 Z (build G2 Z w_tree) 2%Z = sem G2 Z w_tree 2%Z.
+  qe_call G2 ZT (old_build G2 ZT w_tree) 2%Z <> sem G2 ZT w_tree 2%Z /\
+  qe_call G2 ZT (build G2 ZT w_tree) 2%Z = sem G2 ZT w_tree 2%Z.
 Proof. split; [vm_compute; discriminate|vm_compute; reflexivity]. Qed.
 
-Lemma w_tree2_wfx : wfx G2 Z w_tree2.
+Lemma w_tree2_wfx : wfx G2 ZT w_tree2.
 Proof. split; exact I. Qed.
 
 Lemma w_tree2_old_rule :
-  old_qe_matmul_data G2 Z (build G2 Z w_tree2) 2%Z wS = None /\
-  qe_matmul_data G2 Z (build G2 Z w_tree2) 2%Z wS = Some (mul2 (sem G2 Z w_tree2 2%Z) wS).
+  old_qe_matmul_data G2 ZT (build G2 ZT w_tree2) 2%Z wS = None /\
+  qe_matmul_data G2 ZT (build G2 ZT w_tree2) 2%Z wS = Some (mul2 (sem G2 ZT w_tree2 2%Z) wS).
 Proof. split; vm_compute; reflexivity. Qed.
+
+Lemma w_tree3_wfx : wfx G2 ZT w_tree3.
+Proof. split; exact I. Qed.
+
+Lemma w_tree3_depends_on_args :
+  sem G2 ZT w_tree3 2%Z <> sem G2 ZT (@XArgs G2 ZT w_tree3 (Some 7%Z)) 2%Z.
+Proof. vm_compute. discriminate. Qed.
+
+(* sampled coefficients on nearly equal grids.  Ticks of 2^-53 s: the grids
+   arange(5) * 2^-33 s and the same stretched by 1 + 2^-20; the absolute
+   tolerance 1e-15 s of the guard before commit f4e3df4 is 2^53 / 1e15 ticks. *)
+Definition w_an : Z := 9007199254740992%Z.
+Definition w_l : @inter G2 ZT :=
+  @Build_inter G2 ZT [0; 1048576; 2097152; 3145728; 4194304]%Z
+               [[gi 0 0; gi 3 0; gi (-2) 0; gi 1 0; gi 3 0]].
+Definition w_r : @inter G2 ZT :=
+  @Build_inter G2 ZT [0; 1048577; 2097154; 3145731; 4194308]%Z
+               [[gi 1 0; gi (-3) 0; gi 2 0; gi 2 0; gi (-1) 0]].
+
+Lemma w_inter_ok : inter_ok G2 ZT w_l /\ inter_ok G2 ZT w_r.
+Proof.
+  split; (split; [repeat constructor|]);
+    repeat (constructor; [unfold tsep, ZT, zsep, ten15; simpl; lia|]); constructor.
+Qed.
+
+Lemma w_old_guard_not_pointwise :
+  fuse_guard_with G2 ZT (zclose_old w_an ten15) w_l w_r = true /\
+  ceval G2 ZT (coef_add_with G2 ZT (zclose_old w_an ten15) (CInter w_l) (CInter w_r)) 2097153%Z
+  <> gadd (ieval G2 ZT w_l 2097153%Z) (ieval G2 ZT w_r 2097153%Z).
+Proof. split; [vm_compute; reflexivity|vm_compute; discriminate]. Qed.
+
+Lemma w_new_guard_rejects :
+  fuse_guard_with G2 ZT (tclose G2 ZT) w_l w_r = false /\
+  ckind_of G2 ZT (coef_add G2 ZT (CInter w_l) (CInter w_r)) = CKSum.
+Proof. split; vm_compute; reflexivity. Qed.
+
+Lemma w_fuse_same_grid :
+  ckind_of G2 ZT (coef_add G2 ZT (CInter w_l) (CInter w_l)) = CKInter.
+Proof. vm_compute. reflexivity. Qed.
